@@ -4,6 +4,8 @@ Trace obligations over the generic (not monomorphised) MIR of DataRowIterator::{
 the provided TestDriver::write_input: the driver methods are uninterpreted events, so the result holds for
 every driver type, including ones that override write_input.
 """
+import re
+
 import z3
 
 from ..oblig import obligation
@@ -266,6 +268,12 @@ def try_new(O):
             fail(O, p, "try_new makes driver calls %s" % [e.norm for e in dc])
             continue
         ev = dc[0]
+        extra_calls = [e.norm.split("::")[-1] for e in p.calls() if e.crate and not re.search(
+            r"DataRowIteratorTestData::new$|generate_default_input_entries$|TestDriver>::write_input_and_read_output$|build_output_indices$|"
+            r"new_with_outputs$|EvalContext::new$|set_outputs$|<.* as From>::from$|::from$", e.norm)]
+        if extra_calls:
+            fail(O, p, "try_new also runs %s (the constructor evaluates nothing: no row, no virtual signal, no draw)" % extra_calls[0])
+            continue
         names = [e.norm for e in p.calls()]
         pos = names.index(ev.norm)
         gd = p.calls(r"generate_default_input_entries$")
